@@ -6,6 +6,8 @@ package main
 
 import (
 	"fmt"
+	"os"
+	"os/exec"
 	"strings"
 	"time"
 
@@ -22,7 +24,7 @@ import (
 
 type msg uint32
 
-func (m msg) HashCode() uint32           { return uint32(m) }
+func (m msg) HashCode() uint32            { return uint32(m) }
 func (m msg) HashType() selector.HashType { return selector.ConsistentHash }
 func (m msg) IsHash() bool                { return true }
 
@@ -155,9 +157,54 @@ func scenario(c conf) *vm.Scenario {
 	return sc
 }
 
+// racePass runs the same bodies free-running on the uninstrumented packages under
+// the Go race detector (checks/c13race) and reports data races inside TarsGo.
+func racePass(run *common.Run) (ran bool, races int) {
+	cmd := exec.Command("go", "test", "-race", "-count=1", "-vet=off", "./checks/c13race")
+	cmd.Dir = common.Root()
+	out, err := cmd.CombinedOutput()
+	text := string(out)
+	if err != nil && !strings.Contains(text, "DATA RACE") && !strings.Contains(text, "--- FAIL") {
+		run.InfraError("race pass could not run: %v\n%s", err, text)
+		return false, 0
+	}
+	seen := map[string]bool{}
+	for _, blk := range strings.Split(text, "WARNING: DATA RACE")[1:] {
+		races++
+		site := "unknown"
+		for _, ln := range strings.Split(blk, "\n") {
+			ln = strings.TrimSpace(ln)
+			if i := strings.Index(ln, "github.com/TarsCloud/TarsGo/tars/"); i >= 0 {
+				site = ln[i+len("github.com/TarsCloud/TarsGo/tars/"):]
+				if j := strings.IndexAny(site, ".("); j >= 0 {
+					site = site[:j]
+				}
+				break
+			}
+		}
+		sig := "data-race:" + site
+		if !seen[sig] {
+			seen[sig] = true
+			if len(blk) > 3000 {
+				blk = blk[:3000]
+			}
+			run.Violation(sig, "the race detector reports a data race while selections run concurrently with updates (free-running pass):"+blk, map[string]any{"cmd": "go test -race ./checks/c13race"})
+		}
+	}
+	if strings.Contains(text, "non-member") {
+		run.Violation("race-pass:non-member-selected", text, nil)
+	}
+	return true, races
+}
+
 func main() {
 	run := common.Start("C13", "model_checking")
-	budget := 60 * time.Second
+	if run.Replay == "" && os.Getenv("E1_WORKER") == "" {
+		if ok, n := racePass(run); ok {
+			run.Note("free-running -race pass over all four selectors (3 selecting goroutines, 1600 updates each, weighted and unweighted): %d race reports", n)
+		}
+	}
+	budget := 25 * time.Second
 	if run.Thorough() {
 		budget = 6 * time.Minute
 	}
